@@ -91,13 +91,35 @@ func isPkgVar(o types.Object) bool {
 // whether the path passes through memory the root merely references (slice or
 // map element, pointer target), as opposed to the root variable's own cells.
 func base(info *types.Info, e ast.Expr) (root types.Object, deref bool) {
+	root, n := baseDepth(info, e)
+	return root, n > 0
+}
+
+// baseDepth is base with the number of dereferences on the path.
+func baseDepth(info *types.Info, e ast.Expr) (root types.Object, depth int) {
+	root, depth, _ = basePath(info, e)
+	return
+}
+
+// basePath also names the field selected first on the way from the root
+// ("" if the path selects none): x.f.g[i] -> (x, ..., "f").
+func basePath(info *types.Info, e ast.Expr) (root types.Object, depth int, field string) {
+	deref := false
+	mark := func() {
+		if deref {
+			depth++
+			deref = false
+		}
+	}
+	defer mark()
 	for {
+		mark()
 		switch x := ast.Unparen(e).(type) {
 		case *ast.Ident:
 			if o := info.Uses[x]; o != nil {
-				return o, deref
+				return o, depth, field
 			}
-			return info.Defs[x], deref
+			return info.Defs[x], depth, field
 		case *ast.IndexExpr:
 			if tv, ok := info.Types[x.X]; ok && tv.Type != nil {
 				switch tv.Type.Underlying().(type) {
@@ -115,6 +137,9 @@ func base(info *types.Info, e ast.Expr) (root types.Object, deref bool) {
 			e = x.X
 		case *ast.SelectorExpr:
 			if sel := info.Selections[x]; sel != nil {
+				if sel.Kind() == types.FieldVal {
+					field = x.Sel.Name
+				}
 				if sel.Indirect() {
 					deref = true
 				} else if tv, ok := info.Types[x.X]; ok && tv.Type != nil {
@@ -127,15 +152,15 @@ func base(info *types.Info, e ast.Expr) (root types.Object, deref bool) {
 			}
 			// qualified identifier pkg.Name
 			if o := info.Uses[x.Sel]; o != nil {
-				return o, deref
+				return o, depth, field
 			}
-			return nil, deref
+			return nil, depth, field
 		case *ast.StarExpr:
 			deref = true
 			e = x.X
 		case *ast.UnaryExpr:
 			if x.Op != token.AND {
-				return nil, deref
+				return nil, depth, field
 			}
 			e = x.X
 		case *ast.TypeAssertExpr:
@@ -145,9 +170,9 @@ func base(info *types.Info, e ast.Expr) (root types.Object, deref bool) {
 				e = x.Args[0]
 				continue
 			}
-			return nil, deref
+			return nil, depth, field
 		default:
-			return nil, deref
+			return nil, depth, field
 		}
 	}
 }
@@ -250,63 +275,177 @@ func (a *analysis) collect(pkgs ...string) {
 
 // derived computes the local variables of u that may reference memory
 // reachable from a source; it maps each to (one of) the sources it derives from.
-func (a *analysis) derived(u *unit, isSource func(types.Object) bool) map[types.Object]types.Object {
+//
+// Two levels are kept apart. A variable is a DIRECT alias when the memory it
+// refers to immediately (the backing array of a slice, the target of a pointer,
+// the map, or for a struct-valued variable the targets of its reference fields)
+// may be source memory. It merely CONTAINS source references when that immediate
+// memory is its own (made, appended to from empty, a fresh literal) but holds
+// pointers into source memory: storing into such a container (x[i] = v,
+// append(x, v)) touches only the container, a store two dereferences down
+// (x[i].f = v through a pointer element) touches the source.
+func (a *analysis) derived(u *unit, isSource func(types.Object) bool) *derivation {
 	info := a.p.Info(u.pkg)
 	der := map[types.Object]types.Object{}
-	srcOf := func(e ast.Expr) types.Object {
-		var found types.Object
-		var visit func(e ast.Expr)
-		visit = func(e ast.Expr) {
-			if found != nil || e == nil {
+	direct := map[types.Object]bool{}
+	fder := map[types.Object]map[string]*fieldDer{}
+	// level: the source e may reference, and how: 0 not at all, 1 e's own fresh memory holds
+	// references into it, 2 e may be a direct alias of source memory
+	var level func(e ast.Expr) (types.Object, int)
+	level = func(e ast.Expr) (types.Object, int) {
+		if e == nil {
+			return nil, 0
+		}
+		e = ast.Unparen(e)
+		var src types.Object
+		lv := 0
+		join := func(o types.Object, l int) {
+			if o == nil || l == 0 {
 				return
 			}
-			if call, ok := ast.Unparen(e).(*ast.CallExpr); ok && !core.IsConversion(info, call) {
-				if fn := core.Callee(info, call); fn != nil && !isRepo(fn.Pkg()) && freshExternal(core.FuncID(fn)) {
-					return
-				}
-				if core.IsBuiltin(info, call, "len") || core.IsBuiltin(info, call, "cap") || core.IsBuiltin(info, call, "make") || core.IsBuiltin(info, call, "new") {
-					return
-				}
-				// the result may alias any reference-kind operand (receiver included)
-				if se, ok := ast.Unparen(call.Fun).(*ast.SelectorExpr); ok && info.Selections[se] != nil {
-					visit(se.X)
-				}
-				for _, arg := range call.Args {
-					if tv, ok := info.Types[arg]; ok && refKind(tv.Type) {
-						visit(arg)
-					}
-				}
-				return
+			if src == nil {
+				src = o
 			}
-			if cl, ok := ast.Unparen(e).(*ast.CompositeLit); ok {
-				for _, el := range cl.Elts {
-					if kv, ok := el.(*ast.KeyValueExpr); ok {
-						el = kv.Value
-					}
-					if tv, ok := info.Types[el]; ok && refKind(tv.Type) {
-						visit(el)
-					}
-				}
-				return
-			}
-			root, _ := base(info, e)
-			if root == nil {
-				return
-			}
-			if isSource(root) {
-				found = root
-			} else if s, ok := der[root]; ok {
-				found = s
+			if l > lv {
+				lv = l
 			}
 		}
-		visit(e)
-		return found
+		switch x := e.(type) {
+		case *ast.CallExpr:
+			if core.IsConversion(info, x) {
+				if len(x.Args) == 1 {
+					return level(x.Args[0])
+				}
+				return nil, 0
+			}
+			if fn := core.Callee(info, x); fn != nil && !isRepo(fn.Pkg()) && freshExternal(core.FuncID(fn)) {
+				return nil, 0
+			}
+			if core.IsBuiltin(info, x, "len") || core.IsBuiltin(info, x, "cap") || core.IsBuiltin(info, x, "make") || core.IsBuiltin(info, x, "new") {
+				return nil, 0
+			}
+			if core.IsBuiltin(info, x, "append") && len(x.Args) > 0 {
+				// the result is the first operand's array or a fresh one; the appended values are held in it
+				join(level(x.Args[0]))
+				for _, arg := range x.Args[1:] {
+					if tv, ok := info.Types[arg]; ok && refKind(tv.Type) {
+						if o, l := level(arg); l > 0 {
+							join(o, 1)
+						}
+					}
+				}
+				return src, lv
+			}
+			// any other result may alias anything reachable from a reference-kind operand (receiver included)
+			if se, ok := ast.Unparen(x.Fun).(*ast.SelectorExpr); ok && info.Selections[se] != nil {
+				if o, l := level(se.X); l > 0 {
+					join(o, 2)
+				}
+			}
+			for _, arg := range x.Args {
+				if tv, ok := info.Types[arg]; ok && refKind(tv.Type) {
+					if o, l := level(arg); l > 0 {
+						join(o, 2)
+					}
+				}
+			}
+			return src, lv
+		case *ast.UnaryExpr:
+			if x.Op == token.AND {
+				if cl, ok := ast.Unparen(x.X).(*ast.CompositeLit); ok {
+					if o, l := level(cl); l > 0 {
+						return o, 1 // &T{...}: a fresh cell holding the elements
+					}
+					return nil, 0
+				}
+			}
+		case *ast.CompositeLit:
+			for _, el := range x.Elts {
+				if kv, ok := el.(*ast.KeyValueExpr); ok {
+					el = kv.Value
+				}
+				if tv, ok := info.Types[el]; ok && refKind(tv.Type) {
+					join(level(el))
+				}
+			}
+			if tv, ok := info.Types[x]; ok && tv.Type != nil && lv > 1 {
+				switch tv.Type.Underlying().(type) {
+				case *types.Slice, *types.Map:
+					lv = 1 // a fresh array or map holding the elements
+				}
+			}
+			return src, lv
+		}
+		root, depth, field := basePath(info, e)
+		switch {
+		case root == nil:
+			return nil, 0
+		case isSource(root):
+			return root, 2
+		case der[root] != nil:
+			if direct[root] || depth >= 1 {
+				return der[root], 2
+			}
+			return der[root], 1
+		case field != "" && fder[root][field] != nil:
+			return fder[root][field].src, 2
+		case field == "" && len(fder[root]) > 0:
+			// the whole of a value one field of which holds a source reference
+			var names []string
+			for f := range fder[root] {
+				names = append(names, f)
+			}
+			sort.Strings(names)
+			if depth >= 1 {
+				return fder[root][names[0]].src, 2
+			}
+			return fder[root][names[0]].src, 1
+		}
+		return nil, 0
+	}
+	srcOf := func(e ast.Expr) (types.Object, bool) {
+		o, l := level(e)
+		return o, l == 2
 	}
 	for changed := true; changed; {
 		changed = false
 		set := func(lhs ast.Expr, rhs ast.Expr) {
 			id, ok := ast.Unparen(lhs).(*ast.Ident)
-			if !ok || id.Name == "_" {
+			if !ok {
+				// a store into a field or element of a local or parameter: that field (or, with no
+				// field on the path, the whole container) now holds the reference
+				root, depth, field := basePath(info, lhs)
+				if root == nil || isPkgVar(root) || der[root] != nil {
+					return
+				}
+				if tv, ok := info.Types[rhs]; !ok || !refKind(tv.Type) {
+					return
+				}
+				s, _ := srcOf(rhs)
+				if s == nil {
+					return
+				}
+				if field == "" {
+					if isSource(root) {
+						return
+					}
+					der[root] = s
+					changed = true
+					return
+				}
+				if fder[root] == nil {
+					fder[root] = map[string]*fieldDer{}
+				}
+				if fd := fder[root][field]; fd == nil {
+					fder[root][field] = &fieldDer{src: s, depth: depth}
+					changed = true
+				} else if depth < fd.depth {
+					fd.depth = depth
+					changed = true
+				}
+				return
+			}
+			if id.Name == "_" {
 				return
 			}
 			o := info.Defs[id]
@@ -316,11 +455,16 @@ func (a *analysis) derived(u *unit, isSource func(types.Object) bool) map[types.
 			if o == nil || isPkgVar(o) || !refKind(o.Type()) {
 				return
 			}
-			if _, done := der[o]; done {
+			s, d := srcOf(rhs)
+			if s == nil {
 				return
 			}
-			if s := srcOf(rhs); s != nil {
+			if _, done := der[o]; !done {
 				der[o] = s
+				changed = true
+			}
+			if d && !direct[o] {
+				direct[o] = true
 				changed = true
 			}
 		}
@@ -345,13 +489,64 @@ func (a *analysis) derived(u *unit, isSource func(types.Object) bool) map[types.
 					}
 				}
 			case *ast.RangeStmt:
+				// the element of anything that references or holds source memory is a direct reference into it
+				elem := func(lhs ast.Expr) {
+					id, ok := ast.Unparen(lhs).(*ast.Ident)
+					if !ok || id.Name == "_" {
+						set(lhs, s.X)
+						return
+					}
+					o := info.Defs[id]
+					if o == nil {
+						o = info.Uses[id]
+					}
+					if o == nil || isPkgVar(o) || !refKind(o.Type()) {
+						return
+					}
+					if src, l := level(s.X); l > 0 {
+						if der[o] == nil {
+							der[o] = src
+							changed = true
+						}
+						if !direct[o] {
+							direct[o] = true
+							changed = true
+						}
+					}
+				}
 				if s.Value != nil {
-					set(s.Value, s.X)
+					elem(s.Value)
 				}
 				if s.Key != nil {
 					if tv, ok := info.Types[s.X]; ok && tv.Type != nil {
 						if _, isMap := tv.Type.Underlying().(*types.Map); isMap {
-							set(s.Key, s.X)
+							elem(s.Key)
+						}
+					}
+				}
+			case *ast.TypeSwitchStmt:
+				// switch v := x.(type): each clause's v is x
+				as, ok := s.Assign.(*ast.AssignStmt)
+				if !ok || len(as.Rhs) != 1 {
+					break
+				}
+				ta, ok := ast.Unparen(as.Rhs[0]).(*ast.TypeAssertExpr)
+				if !ok {
+					break
+				}
+				src, l := level(ta.X)
+				if l == 0 {
+					break
+				}
+				for _, cc := range s.Body.List {
+					if o := info.Implicits[cc]; o != nil && refKind(o.Type()) {
+						if der[o] == nil {
+							der[o] = src
+							changed = true
+						}
+						if l == 2 && !direct[o] {
+							direct[o] = true
+							changed = true
 						}
 					}
 				}
@@ -359,49 +554,100 @@ func (a *analysis) derived(u *unit, isSource func(types.Object) bool) map[types.
 			return true
 		})
 	}
-	return der
+	return &derivation{der, direct, fder}
+}
+
+// fieldDer: a field of a local that was assigned a source reference, and the depth of that store.
+type fieldDer struct {
+	src   types.Object
+	depth int
+}
+
+type derivation struct {
+	der    map[types.Object]types.Object
+	direct map[types.Object]bool
+	fder   map[types.Object]map[string]*fieldDer
 }
 
 // writes lists the stores of u that may land in memory reachable from a source.
 func (a *analysis) writes(u *unit, isSource func(types.Object) bool, rebinding bool) []write {
 	info := a.p.Info(u.pkg)
-	der := a.derived(u, isSource)
-	srcOfRoot := func(root types.Object) types.Object {
-		if root == nil {
+	dv := a.derived(u, isSource)
+	// hit: a store `extra` dereferences below the path e lands in source memory; returns that source
+	hit := func(e ast.Expr, extra int) types.Object {
+		root, depth, field := basePath(info, e)
+		depth += extra
+		switch {
+		case root == nil:
 			return nil
+		case isSource(root):
+			if depth >= 1 || isPkgVar(root) {
+				return root
+			}
+		case dv.der[root] != nil:
+			if (dv.direct[root] && depth >= 1) || depth >= 2 {
+				return dv.der[root]
+			}
+		case field != "":
+			if fd := dv.fder[root][field]; fd != nil && depth > fd.depth {
+				return fd.src
+			}
 		}
-		if isSource(root) {
-			return root
-		}
-		return der[root]
+		return nil
 	}
 	var out []write
 	lhsWrite := func(l ast.Expr, pos token.Pos) {
-		root, deref := base(info, l)
-		s := srcOfRoot(root)
-		if s == nil {
+		root, _ := base(info, l)
+		if root == nil {
 			return
 		}
 		if isPkgVar(root) {
+			if !isSource(root) {
+				return
+			}
 			if _, plain := ast.Unparen(l).(*ast.Ident); plain || isQualified(info, l) {
 				if rebinding {
-					out = append(out, write{pos, "assignment to package variable " + root.Name(), s, l})
+					out = append(out, write{pos, "assignment to package variable " + root.Name(), root, l})
 				}
 				return
 			}
-			out = append(out, write{pos, "store into package variable " + root.Name() + " (" + types.ExprString(l) + ")", s, l})
+			out = append(out, write{pos, "store into package variable " + root.Name() + " (" + types.ExprString(l) + ")", root, l})
 			return
 		}
-		if deref {
+		if s := hit(l, 0); s != nil {
 			out = append(out, write{pos, "store through " + types.ExprString(l), s, l})
 		}
 	}
+	// argWrite: the callee (or builtin) writes the memory arg refers to
 	argWrite := func(arg ast.Expr, pos token.Pos, what string) {
-		root, _ := base(info, arg)
-		if s := srcOfRoot(root); s != nil {
-			if tv, ok := info.Types[arg]; ok && (refKind(tv.Type) || isAddr(arg)) {
-				out = append(out, write{pos, what, s, nil})
+		tv, ok := info.Types[arg]
+		if !ok || !(refKind(tv.Type) || isAddr(arg)) {
+			return
+		}
+		if s := hit(arg, 1); s != nil {
+			out = append(out, write{pos, what, s, nil})
+		}
+	}
+	// recvWrite: a method with a pointer receiver is applied to e
+	recvWrite := func(e ast.Expr, pos token.Pos, what string, ptrMethod bool) {
+		// a pointer method applied to an addressable value writes that value's own cells; applied to a
+		// pointer, or a value method writing through its receiver, it writes one dereference down
+		extra := 1
+		if ptrMethod {
+			extra = 0
+			if tv, ok := info.Types[e]; ok && tv.Type != nil {
+				if _, isPtr := tv.Type.Underlying().(*types.Pointer); isPtr {
+					extra = 1
+				}
 			}
+		}
+		root, _ := base(info, e)
+		if root != nil && isPkgVar(root) && isSource(root) {
+			out = append(out, write{pos, what, root, nil})
+			return
+		}
+		if s := hit(e, extra); s != nil {
+			out = append(out, write{pos, what, s, nil})
 		}
 	}
 	ast.Inspect(u.body, func(n ast.Node) bool {
@@ -455,7 +701,8 @@ func (a *analysis) writes(u *unit, isSource func(types.Object) bool, rebinding b
 				if sig != nil && sig.Recv() != nil {
 					off = 1
 					if why, ok := w[0]; ok && recvExpr != nil {
-						argWrite2(info, srcOfRoot, &out, recvExpr, s.Pos(), "call of "+id+" ("+why+")", true)
+						_, isPtr := sig.Recv().Type().(*types.Pointer)
+						recvWrite(recvExpr, s.Pos(), "call of "+id+" ("+why+")", isPtr)
 					}
 				}
 				for i, arg := range s.Args {
@@ -464,7 +711,7 @@ func (a *analysis) writes(u *unit, isSource func(types.Object) bool, rebinding b
 						k = sig.Params().Len() - 1 + off
 					}
 					if why, ok := w[k]; ok {
-						argWrite2(info, srcOfRoot, &out, arg, s.Pos(), "call of "+id+" ("+why+")", false)
+						argWrite(arg, s.Pos(), "call of "+id+" ("+why+")")
 					}
 				}
 				return true
@@ -477,10 +724,7 @@ func (a *analysis) writes(u *unit, isSource func(types.Object) bool, rebinding b
 			}
 			if sig != nil && sig.Recv() != nil && recvExpr != nil {
 				if _, isPtr := sig.Recv().Type().(*types.Pointer); isPtr {
-					root, _ := base(info, recvExpr)
-					if src := srcOfRoot(root); src != nil {
-						out = append(out, write{s.Pos(), "pointer-receiver method " + id + " applied to " + types.ExprString(recvExpr), src, nil})
-					}
+					recvWrite(recvExpr, s.Pos(), "pointer-receiver method "+id+" applied to "+types.ExprString(recvExpr), true)
 				}
 			}
 		}
@@ -497,21 +741,6 @@ func isAddr(e ast.Expr) bool {
 func isQualified(info *types.Info, e ast.Expr) bool {
 	se, ok := ast.Unparen(e).(*ast.SelectorExpr)
 	return ok && info.Selections[se] == nil
-}
-
-func argWrite2(info *types.Info, srcOfRoot func(types.Object) types.Object, out *[]write, arg ast.Expr, pos token.Pos, what string, recv bool) {
-	root, _ := base(info, arg)
-	s := srcOfRoot(root)
-	if s == nil {
-		return
-	}
-	tv, ok := info.Types[arg]
-	if !ok {
-		return
-	}
-	if refKind(tv.Type) || isAddr(arg) || (recv && isPkgVar(root)) {
-		*out = append(*out, write{pos, what, s, nil})
-	}
 }
 
 // solve computes, for every repository function, the parameters it may write through.
